@@ -26,6 +26,7 @@ const (
 	SAbortSt200  Step = "abort-status-200" // c.AbortWithStatus(200): must replace a pending non-200 status too
 	SSilent      Step = "silent"           // first step of a handler that records no events (the built-in 404 responder)
 	SDefault404  Step = "default-404"      // http.NotFound: status 404 unless committed, then the body
+	SWriteStr    Step = "write-string"     // io.WriteString(c.Resp, "x"): same as SWrite for the specification
 	SAddErr      Step = "add-error"        // Context.AddError: recorded for the OnError hook, invisible to the chain
 )
 
@@ -86,7 +87,7 @@ func RunChain(bs []Behaviour, abortCode int) ChainResult {
 					}
 				}
 				aborted = true
-			case SWrite:
+			case SWrite, SWriteStr:
 				if !res.Committed {
 					res.Committed = true
 					res.Status = pendingStatus
